@@ -41,10 +41,10 @@ MANIFEST = {
                   "extracted scanner is quadratic, so streams above 64 KiB reach only the Go-side search). The 8-byte "
                   "load through unsafe.Pointer is modelled as the little-endian value of 8 in-range bytes (a load past "
                   "the slice end is a model Panic, proved not to happen); Go int is an unbounded Z (lengths < 2^62); "
-                  "slices have cap = len. Not modelled: GetParameterSetsFromByteStream's final repacking of the sets "
-                  "into one backing array (totSize / psData; values only -- a wrong totSize shows as a panic in the "
-                  "correspondence and the search). The AVC helpers are still instantiations of the shared loop "
-                  "transcriptions (which are textually the avc code).",
+                  "slices have cap = len; make([]byte, n) is n zero bytes with cap = n; sub-slices of psData are kept as "
+                  "index pairs and read from the final psData (aliasing made explicit). extractSlice (make + copy) is "
+                  "the identity on values. The AVC helpers other than GetParameterSetsFromByteStream are instantiations "
+                  "of the shared loop transcriptions (which are textually the avc code).",
 }
 
 
@@ -82,6 +82,8 @@ def run(ctx):
         "IsVideoNaluType, FindNaluTypes, FindNaluTypesUpToFirstVideoNalu, ContainsNaluType, IsRAPSample, IsIDRSample, "
         "HasParameterSets, GetParameterSets, GetParameterSetsFromByteStream, ExtractNalusOfTypeFromByteStream); the driver "
         "answers every hevc_* case with it",
+        "model: coq/c14/C14AvcModel.v avc.GetParameterSetsFromByteStream with totSize and the psData repacking (answers "
+        "every avc_gpsb case)",
         "spec: coq/c14/C14HevcSpec.v two-byte NAL unit header, hevc_unit_type, u_* list functions (written by hand)",
         "spec: coq/c14/C14Spec.v naive_scan / stream / sample / wf_nalu (written by hand)",
         "hook: /repo/avc/verif_c14.go re-exports getStartCodePositions and hasZeroByte (build tag verif)",
